@@ -308,3 +308,139 @@ Proof.
       * cbn in He. left; right. exact He.
       * right. exists e. auto.
 Qed.
+
+(* ------------------------------------------------------------------------------------------ *)
+(* several accounts *)
+Definition same_acct (a b : account) : Prop :=
+  a_default a = a_default b /\ a_prefs a = a_prefs b /\ a_auth a = a_auth b /\
+  forall r, lookup r (a_vaults a) = lookup r (a_vaults b).
+Lemma same_acct_refl : forall a, same_acct a a.
+Proof. intros a. repeat split. Qed.
+
+Definition parties (o : wop) : list N :=
+  match o with
+  | WTry src tgt _ _ _ => [src; tgt]
+  | WDeposit src tgt _ => [src; tgt]
+  | WWithdraw tgt _ _ dst => [tgt; dst]
+  | WConfig tgt _ => [tgt]
+  end.
+
+Lemma wget_wset : forall w a x b, wget (wset w a x) b = if N.eqb b a then x else wget w b.
+Proof. intros w a x b. unfold wget, wset. rewrite lookup_set_key. destruct (N.eqb b a); reflexivity. Qed.
+
+(* FRAME over the world: an account that is not a party of the transaction is exactly as before *)
+Theorem world_frame : forall bn w o a, ~ In a (parties o) -> wget (fst (wstep bn w o)) a = wget w a.
+Proof.
+  intros bn w o a Hn. destruct o as [src tgt v bs c|src tgt bs|tgt r amt dst|tgt o]; cbn [parties] in Hn; cbn [wstep].
+  - assert (Hs : N.eqb a src = false) by (apply N.eqb_neq; intros E; apply Hn; subst; left; reflexivity).
+    assert (Ht : N.eqb a tgt = false) by (apply N.eqb_neq; intros E; apply Hn; subst; right; left; reflexivity).
+    destruct (N.eqb src tgt); [reflexivity|]. destruct (take_buckets (wget w src) bs); [|reflexivity].
+    destruct (try_deposit bn (wget w tgt) v bs c) as [t' [|rej|e]]; cbn [fst].
+    + rewrite !wget_wset, Ht, Hs. reflexivity.
+    + rewrite wget_wset, Hs. reflexivity.
+    + reflexivity.
+  - assert (Hs : N.eqb a src = false) by (apply N.eqb_neq; intros E; apply Hn; subst; left; reflexivity).
+    assert (Ht : N.eqb a tgt = false) by (apply N.eqb_neq; intros E; apply Hn; subst; right; left; reflexivity).
+    destruct (N.eqb src tgt); [reflexivity|]. destruct (take_buckets (wget w src) bs); [|reflexivity].
+    cbn [fst]. rewrite !wget_wset, Ht, Hs. reflexivity.
+  - assert (Ht : N.eqb a tgt = false) by (apply N.eqb_neq; intros E; apply Hn; subst; left; reflexivity).
+    assert (Hd : N.eqb a dst = false) by (apply N.eqb_neq; intros E; apply Hn; subst; right; left; reflexivity).
+    destruct (N.eqb tgt dst); [reflexivity|].
+    destruct (step bn (wget w tgt) (OWithdraw r amt)) as [t' [|rej|e]]; cbn [fst]; try reflexivity.
+    rewrite !wget_wset, Hd, Ht. reflexivity.
+  - assert (Ht : N.eqb a tgt = false) by (apply N.eqb_neq; intros E; apply Hn; subst; left; reflexivity).
+    destruct (is_config o); [|reflexivity]. cbn [fst]. rewrite wget_wset, Ht. reflexivity.
+Qed.
+
+(* what withdrawing the buckets does to the source *)
+Lemma take_buckets_spec : forall bs a a', take_buckets a bs = Some a' ->
+  a_default a' = a_default a /\ a_prefs a' = a_prefs a /\ a_auth a' = a_auth a /\
+  forall r, lookup r (a_vaults a') =
+            if memN r (map fst bs) then Some (balance a r - sum_for r bs) else lookup r (a_vaults a).
+Proof.
+  induction bs as [|[r0 amt] bs IH]; intros a a' H; cbn [take_buckets] in H.
+  - inversion H. subst. repeat split.
+  - destruct (lookup r0 (a_vaults a)) as [b|] eqn:El; [|discriminate].
+    destruct ((0 <=? amt) && (amt <=? b)); [|discriminate].
+    destruct (IH _ _ H) as (D1 & D2 & D3 & D4). cbn in D1, D2, D3. repeat split; auto.
+    intros r. rewrite D4. cbn [with_vaults a_vaults].
+    change (memN r (map fst ((r0, amt) :: bs))) with (N.eqb r r0 || memN r (map fst bs)).
+    change (sum_for r ((r0, amt) :: bs)) with ((if N.eqb r (fst (r0, amt)) then snd (r0, amt) else 0) + sum_for r bs).
+    cbn [fst snd]. unfold balance at 1. cbn [with_vaults a_vaults]. rewrite lookup_set_key.
+    destruct (N.eqb r r0) eqn:E; cbn [orb].
+    + apply N.eqb_eq in E. subst r0. unfold balance. rewrite El.
+      destruct (memN r (map fst bs)) eqn:Em.
+      * f_equal; lia.
+      * rewrite (sum_for_notin r bs Em). f_equal; lia.
+    + destruct (memN r (map fst bs)); [f_equal; unfold balance; lia|reflexivity].
+Qed.
+
+(* withdrawing buckets and getting all of them back restores the account (refund path) *)
+Lemma take_then_return : forall bs a a', take_buckets a bs = Some a' -> same_acct (deposit_batch a' bs) a.
+Proof.
+  intros bs a a' H. destruct (take_buckets_spec _ _ _ H) as (D1 & D2 & D3 & D4).
+  destruct (deposit_batch_cfg bs a') as (E1 & E2 & E3).
+  repeat split; try congruence. intros r. rewrite deposit_batch_vaults.
+  destruct (memN r (map fst bs)) eqn:Em.
+  - unfold balance at 1. rewrite D4, Em.
+    assert (Hex : lookup r (a_vaults a) <> None).
+    { clear - H Em. revert a a' H. induction bs as [|[r0 amt] bs IH]; intros a a' H; [discriminate|].
+      cbn [take_buckets] in H. destruct (lookup r0 (a_vaults a)) as [b|] eqn:El; [|discriminate].
+      destruct ((0 <=? amt) && (amt <=? b)); [|discriminate].
+      change (memN r (map fst ((r0, amt) :: bs))) with (N.eqb r r0 || memN r (map fst bs)) in Em.
+      destruct (N.eqb r r0) eqn:E.
+      - apply N.eqb_eq in E. subst. rewrite El. discriminate.
+      - cbn in Em. specialize (IH Em _ _ H). cbn [with_vaults a_vaults] in IH. rewrite lookup_set_key, E in IH. exact IH. }
+    unfold balance. destruct (lookup r (a_vaults a)) as [b|]; [f_equal; lia|contradiction].
+  - rewrite D4, Em. reflexivity.
+Qed.
+
+(* the guarded deposit transaction over the world: target as in C39_frame, source pays exactly the
+   buckets when everything is deposited and is restored otherwise, per-resource totals conserved *)
+Theorem world_try : forall bn w src tgt v bs c, src <> tgt ->
+  let w' := fst (wstep bn w (WTry src tgt v bs c)) in
+  let out := snd (wstep bn w (WTry src tgt v bs c)) in
+  (out = Deposited ->
+     wget w' tgt = fst (try_deposit bn (wget w tgt) v bs c) /\
+     a_default (wget w' src) = a_default (wget w src) /\ a_prefs (wget w' src) = a_prefs (wget w src) /\
+     a_auth (wget w' src) = a_auth (wget w src) /\
+     forall r, lookup r (a_vaults (wget w' src)) =
+               if memN r (map fst bs) then Some (balance (wget w src) r - sum_for r bs) else lookup r (a_vaults (wget w src))) /\
+  (out <> Deposited -> wget w' tgt = wget w tgt /\ same_acct (wget w' src) (wget w src)).
+Proof.
+  intros bn w src tgt v bs c Hne. cbn [wstep].
+  assert (E1 : N.eqb src tgt = false) by (apply N.eqb_neq; exact Hne).
+  assert (E2 : N.eqb tgt src = false) by (apply N.eqb_neq; intros E; apply Hne; symmetry; exact E).
+  rewrite E1. destruct (take_buckets (wget w src) bs) as [s'|] eqn:Et.
+  - destruct (try_deposit bn (wget w tgt) v bs c) as [t' [|rej|e]] eqn:Ed; cbn [fst snd].
+    + split; [intros _|intros H; exfalso; apply H; reflexivity].
+      rewrite !wget_wset, N.eqb_refl, E1, N.eqb_refl. split; [reflexivity|].
+      destruct (take_buckets_spec _ _ _ Et) as (D1 & D2 & D3 & D4). auto.
+    + split; [discriminate|intros _]. rewrite !wget_wset, E2, N.eqb_refl. split; [reflexivity|].
+      apply take_then_return. exact Et.
+    + split; [discriminate|intros _]. split; [reflexivity|apply same_acct_refl].
+  - cbn [fst snd]. split; [discriminate|intros _]. split; [reflexivity|apply same_acct_refl].
+Qed.
+
+Theorem world_try_conservation : forall bn w src tgt v bs c r, src <> tgt ->
+  let w' := fst (wstep bn w (WTry src tgt v bs c)) in
+  balance (wget w' src) r + balance (wget w' tgt) r = balance (wget w src) r + balance (wget w tgt) r.
+Proof.
+  intros bn w src tgt v bs c r Hne w'.
+  destruct (world_try bn w src tgt v bs c Hne) as [A B]. fold w' in A, B.
+  destruct (snd (wstep bn w (WTry src tgt v bs c))) eqn:Eo.
+  - destruct (A eq_refl) as (T & _ & _ & _ & S).
+    assert (Ed : snd (try_deposit bn (wget w tgt) v bs c) = Deposited).
+    { cbn [wstep] in Eo. assert (E1 : N.eqb src tgt = false) by (apply N.eqb_neq; exact Hne). rewrite E1 in Eo.
+      destruct (take_buckets (wget w src) bs); [|discriminate].
+      destruct (try_deposit bn (wget w tgt) v bs c) as [t' [|rej|e]]; cbn in *; congruence. }
+    destruct (frame bn (wget w tgt) v bs c) as (_ & _ & _ & F1 & F2 & _).
+    unfold balance at 1 2. rewrite S, T.
+    destruct (memN r (map fst bs)) eqn:Em.
+    + rewrite (F2 Ed r Em). lia.
+    + rewrite (F1 r Em). unfold balance. reflexivity.
+  - assert (Hn : Refunded rejected <> Deposited) by discriminate. destruct (B Hn) as [T (_ & _ & _ & S)].
+    unfold balance. rewrite S, T. reflexivity.
+  - assert (Hn : Failed e <> Deposited) by discriminate. destruct (B Hn) as [T (_ & _ & _ & S)].
+    unfold balance. rewrite S, T. reflexivity.
+Qed.
